@@ -185,7 +185,10 @@ def cases(thorough, seed):
             if i % 7 == 3:
                 r.append(["CR", "PHOTON", "CRPHOT"][i % 3])
             reactions.append(rx(r, list(p)))
-        c = Case(f"BAL-{pn}", {"reactions": reactions, "network": {}}, tags={"balanced"})
+        # two pools also carry inert species (declared as extra species, part of no reaction): their derivative is zero
+        inert = {"HCO": ["He", "Ne+"], "ice": ["#N2"]}.get(pn, [])
+        c = Case(f"BAL-{pn}", {"reactions": reactions, "network": {"required_species": inert} if inert else {}}, tags={"balanced"})
         c.composition = {c.canon(n): v for n, v in POOLS[pn].items()}  # independent of naunet's name parser
+        c.composition.update({c.canon(n): v for n, v in {"He": ({"He": 1}, 0), "Ne+": ({"Ne": 1}, 1), "#N2": ({"N": 2}, 0)}.items() if n in inert})
         out.append(c)
     return out
